@@ -292,3 +292,23 @@ Theorem C03_walk_text_tokens : forall o v d n r txt r', o_value_mapping o = fals
   exists e, json_of o d v = TOk e /\ txt = render f64_exact_lexeme (jtoks e).
 Proof. exact walk_text_tokens. Qed.
 Print Assumptions C03_walk_text_tokens.
+
+(* ---- the number reader that judges the float text is correctly rounded (proofs/FpRound.v, Dec2FloatCorrect.v) ---- *)
+From DG Require Dec2FloatCorrect.
+Theorem C03_dec2f64_correct : forall d, f64_rounds_to d (dec2f64 d) = true.
+Proof. exact Dec2FloatCorrect.dec2f64_correct. Qed.
+Print Assumptions C03_dec2f64_correct.
+
+Theorem C03_dec2f64_unique : forall d b, 0 <= b < 2 ^ 64 -> f64_rounds_to d b = true -> b = dec2f64 d.
+Proof. exact Dec2FloatCorrect.dec2f64_unique. Qed.
+Print Assumptions C03_dec2f64_unique.
+
+(* completeness of the comparator's number test (check 301 / 304): whatever bits the reader gives a lexeme, the comparator accepts the
+   lexeme for exactly those bits *)
+Theorem C03_lex2f64_is_f64 : forall l b, lex2f64 l = Some b -> lex_is_f64 l b = true.
+Proof. exact Dec2FloatCorrect.lex2f64_is_f64. Qed.
+Print Assumptions C03_lex2f64_is_f64.
+
+Theorem C03_lex_is_f64_iff : forall l b, lex_is_f64 l b = true <-> lex2f64 l = Some b.
+Proof. exact Dec2FloatCorrect.lex_is_f64_iff. Qed.
+Print Assumptions C03_lex_is_f64_iff.
